@@ -48,6 +48,10 @@ CHECKS = {
                 technique="differential symbolic execution of the project rendered by `naunet init`+`naunet render` (real CLI, real TOML) against the project rendered through Network(...) for the requested description: SMT equivalence of every rate coefficient and derivative, ground equality of macro tables and TOML fields",
                 text="For the bundled examples (minimal, primordial, empty; deuterium and cloud in thorough) and option-value classes (blanks around separators in lists and key=value tables, extra species, modifiers, binding energies and yields, non-default symbols) the configuration file records what was requested and the command-line rendering is equivalent for all inputs to the API rendering.",
                 note="Options are enumerated classes, not symbolic strings (the CrossHair harness on the option parser covers short symbolic strings); prompts are not exercised; `ism` needs an external file."),
+    "C18": dict(engine=E1, cat="translation_validation", sec="6 C18",
+                technique="ground field-wise comparison of two native write/read cycles + differential symbolic execution: compiled EvalRates/Fex of the direct rendering vs. Network.export re-rendered by `naunet render` in the exported directory, SMT equivalence for all parameter values, native replay of every sat answer",
+                text="For networks read from every input format (encoder-written files with every gas-phase type code, bundled fixtures, an API network) two write/read cycles in the native format reproduce reactants/products, window, type, index and coefficients to the printed precision; the exported project re-rendered from its own files has term-equivalent rate coefficients and derivatives or is refused.",
+                note="Seven (format, type code) pairs where export silently changes the law are recorded in known_findings.json; KROME reactions carry text rates and are refused on re-render (allowed). One back-end (cvode dense)."),
     "C19": dict(engine=E1, cat="model_checking", sec="6 C19",
                 technique="bounded model checking of the compiled Solve/HandleError IR with a nondeterministic integrator stub (symbolic flags and partial times, merged states) + one SMT-discharged inductive step per recovery level (loop back edge cut); scripted-mock native replay",
                 text="Every fault sequence over the recovery ladder is covered by (base) Solve up to HandleError establishes the invariant, (step) from any invariant state one level either returns SUCCESS with exactly y0+dt, returns FAIL, or re-establishes the invariant, with every flag an arbitrary integer and every partial time an arbitrary real; plus end-to-end monolithic queries and concrete-flag/symbolic-time scripts through all five levels; odeint Observer and Solve are decided on their compiled IR.",
